@@ -124,19 +124,19 @@ func (s *Solver) Begin() {
 			panic(err)
 		}
 	}
-	if s.open {
-		s.End()
+	// Every path starts from a reset solver: the answers (and models) of a path then depend only on the
+	// path's own sequence of commands, not on which worker ran which paths before (reproducible witnesses).
+	s.send("(reset)")
+	s.send("(set-option :print-success false)")
+	if strings.Contains(s.Cmd[0], "z3") {
+		s.send(fmt.Sprintf("(set-option :timeout %d)", s.TimeoutMS))
 	}
-	s.send("(push 1)")
 	s.defined = map[*Term]bool{}
 	s.open = true
 }
 
 // End closes the path scope.
 func (s *Solver) End() {
-	if s.open && s.cmd != nil {
-		s.send("(pop 1)")
-	}
 	s.open = false
 }
 
